@@ -5,7 +5,7 @@ c = contract("time.sleep").params("secs").assumed("sleeps; raises ValueError for
 c.ghost("sleeps").ghost("last_sleep")
 c.requires("isinstance(secs, (int, float)) and secs >= 0", "non-negative")
 c.modifies("ghost.sleeps", "ghost.last_sleep")
-c.ensures("ghost.sleeps == old(ghost.sleeps) + 1 and ghost.last_sleep is secs")
+c.ensures("is_int(ghost.sleeps) and ghost.sleeps == old(ghost.sleeps) + 1 and ghost.last_sleep is secs")
 
 c = contract("time.time").params().assumed("wall clock")
 c.modifies()
